@@ -93,9 +93,16 @@ func VH_C05_results() {
 		}
 		return out
 	}
+	// when did a task fail last, and which back-off delay was computed for that failure
+	failedAt := map[task.Task]time.Time{}
+	backoffOf := map[task.Task]time.Duration{}
+	var lastFailed task.Task
 	q.ExponentialBackoffFn = func(failureCount int) (d time.Duration) {
 		d = exponential_backoff.CalculateDelay(DefaultInitialDelayOnFailedTask, failureCount)
 		lastDelay = int64(d)
+		if lastFailed != nil {
+			backoffOf[lastFailed] = d
+		}
 		return d
 	}
 	prevFailed := false
@@ -192,6 +199,15 @@ func VH_C05_results() {
 			zz.Assert(t.GetFailureCount() == prevFailures+1, "failure_count_incremented_once")
 			zz.Assert(lastDelay >= int64(DefaultInitialDelayOnFailedTask), "retry_delay_not_shorter_than_initial")
 		}
+		// a failed task is not executed again before its back-off delay has elapsed,
+		// whatever else happens in the queue meanwhile (measured on the operator's clock)
+		if at, ok := failedAt[t]; ok {
+			if d, ok := backoffOf[t]; ok {
+				zz.Assert(time.Since(at) >= d, "retry_not_before_the_backoff_delay_elapsed")
+			}
+			delete(failedAt, t)
+			delete(backoffOf, t)
+		}
 		calls++
 		if calls > maxCalls {
 			q.Stop()
@@ -223,6 +239,10 @@ func VH_C05_results() {
 			res.TailTasks = all[len(hd)+len(af):]
 			// the documented placement is applied to the list model when the worker has applied it
 			inflight = &vhResult{t: t, keep: st == Keep, hd: append([]task.Task{}, hd...), af: append([]task.Task{}, af...), tl: append([]task.Task{}, tl...)}
+		}
+		if st == Fail {
+			failedAt[t] = time.Now()
+			lastFailed = t
 		}
 		running--
 		return res
